@@ -12,7 +12,7 @@ from vf.plan import Ob
 
 h.setup(
     fakes=("pydantic", "shp"),
-    modules=("soundevent.data", "soundevent.evaluation.match"),
+    modules=("soundevent.data", "soundevent.evaluation.match", "soundevent.evaluation.affinity"),
     real_first=("numpy", "xarray", "rasterio.features", "scipy.sparse.csgraph", "scipy.optimize",
                 "matplotlib.pyplot", "sklearn.metrics"),
 )
@@ -26,11 +26,20 @@ if h.MODEL:
     M.linear_sum_assignment = scp.linear_sum_assignment
 
 
+class OpaqueGeometryAccess(BaseException):
+    """the code under test looked inside a geometry: the symbolic-matrix obligations (which assume
+    match.py only hands geometries to compute_affinity) do not apply -> inconclusive, not a violation;
+    the geometric obligations below decide in that case"""
+
+
 class G:
     """stand-in geometry: match.py only hands geometries to compute_affinity"""
 
     def __init__(self, i):
-        self.i = i
+        object.__setattr__(self, "i", i)
+
+    def __getattr__(self, name):
+        raise OpaqueGeometryAccess(name)
 
 
 def _pairings(n, m):
@@ -110,9 +119,62 @@ def ob_match(
     return h.done(paired=(npairs > 0), unpaired=(npairs < max(n, m)), full=(npairs == min(n, m) and npairs > 0))
 
 
+def ob_match_geo(s0: float, s1: float, t0: float, t1: float, w0: float, w1: float, tb: float) -> bool:
+    """
+    pre: 0 <= s0 <= 100 and 0 <= s1 <= 100 and 0 <= t0 <= 100 and 0 <= t1 <= 100
+    pre: 0 <= w0 <= 10 and 0 <= w1 <= 10 and 0.001 <= tb <= 10
+    post: _
+    """
+    # real geometries, real compute_affinity: sources are time stamps, targets time stamps or intervals
+    from soundevent import data
+    from soundevent.evaluation import affinity as AFF
+
+    n, m, kind = h.P("n"), h.P("m"), h.P("kind")
+    src = [data.TimeStamp(coordinates=t) for t in (s0, s1)][:n]
+    if kind == "stamp":
+        tgt = [data.TimeStamp(coordinates=t) for t in (t0, t1)][:m]
+    else:
+        tgt = [data.TimeInterval(coordinates=[t, t + w]) for t, w in ((t0, w0), (t1, w1))][:m]
+    A = [[AFF.compute_affinity(a, b, time_buffer=tb, freq_buffer=100) for b in tgt] for a in src]
+    res = list(M.match_geometries(src, tgt, time_buffer=tb, freq_buffer=100))
+    src_seen = [0] * n
+    tgt_seen = [0] * m
+    total = 0
+    npairs = 0
+    for (i, j, a) in res:
+        if i is not None:
+            src_seen[i] += 1
+        if j is not None:
+            tgt_seen[j] += 1
+        if i is not None and j is not None:
+            npairs += 1
+            if not (a == A[i][j]):
+                return h.fail("reported affinity is not the affinity of the pair")
+            if not (A[i][j] > 0):
+                return h.fail("pair with zero affinity")
+        elif not (a == 0):
+            return h.fail("unpaired entry reports a non-zero affinity")
+        total = total + a
+    if any(c != 1 for c in src_seen) or any(c != 1 for c in tgt_seen):
+        return h.fail("an index is not mentioned exactly once")
+    for alt in _pairings(n, m):
+        t = 0
+        for (i, j) in alt:
+            t = t + A[i][j]
+        if t > total:
+            return h.fail("sum of reported affinities is not the maximum over one-to-one pairings")
+    return h.done(paired=(npairs > 0), unpaired=(npairs == 0))
+
+
 def plan():
     q = ("quick", "thorough")
     obs = []
+    for (n, m, kind) in ((1, 1, "stamp"), (1, 1, "interval"), (2, 1, "stamp"), (1, 2, "interval"), (2, 2, "stamp"),
+                         (2, 2, "interval")):
+        quick = n * m <= 2
+        obs.append(Ob("match-geo-%dx%d-%s" % (n, m, kind), ob_match_geo, "real", 3000 if not quick else 900,
+                      dict(n=n, m=m, kind=kind), q if quick else ("thorough",), twins=("paired", "unpaired"),
+                      twin_timeout=300))
     for n in range(0, 4):
         for m in range(0, 4):
             big = n * m >= 6
@@ -136,5 +198,8 @@ INFO = dict(
         "scipy with the same stub",
         "CrossHair 0.0.110 + z3 (Real)",
     ],
-    outside=["more than 3 geometries per side", "the geometric affinity values themselves (C06)"],
+    outside=["more than 3 geometries per side", "the geometric affinity values themselves (C06)",
+             "geometric obligations (real compute_affinity, time stamps / intervals, <= 2 per side) complement the "
+             "symbolic-matrix ones, which assume match.py treats geometries as opaque (a code change that inspects "
+             "them makes those obligations inconclusive, not failing)"],
 )
